@@ -23,6 +23,7 @@ type Obligation struct {
 	NAssume int
 	Src     string
 	Cover   bool // expects sat (vacuity guard)
+	Block   int  // block the obligation belongs to (-1: none); only assumptions of its CFG ancestors are relevant
 	tx      *FnTx
 	Extra   []string // extra declarations-free assertions local to this obligation
 	// results
@@ -36,15 +37,15 @@ type Obligation struct {
 }
 
 type loopInfo struct {
-	header  *ssa.BasicBlock
-	ordinal int
-	spec    *LoopSpec
-	pre     *State // merged state on loop entry
-	head    *State // havocked state at the head
-	phiHead map[*ssa.Phi]Term
-	regions []ModRegion
-	body    map[*ssa.BasicBlock]bool
-	decHead string
+	header   *ssa.BasicBlock
+	ordinal  int
+	spec     *LoopSpec
+	pre      *State // merged state on loop entry
+	head     *State // havocked state at the head
+	phiHead  map[*ssa.Phi]Term
+	regions  []ModRegion
+	body     map[*ssa.BasicBlock]bool
+	decHead  string
 	havocAll bool
 }
 
@@ -58,8 +59,10 @@ type FnTx struct {
 	d    *Decls
 	h    *HeapEnv
 
-	assumes []string
-	obls    []*Obligation
+	assumes     []string
+	assumeTags  []int // block index in which each assumption was made (-1: function entry)
+	tagOverride int   // when >= 0: tag for assumptions made outside block execution
+	obls        []*Obligation
 
 	vals     map[ssa.Value]Term
 	locs     map[ssa.Value]*Loc
@@ -84,6 +87,8 @@ type FnTx struct {
 	deferred    []*ssa.Defer
 	fnValSorts  map[string][2][]types.Type // name -> (param types, result types)
 	retStates   []retPoint
+	relCache    map[int]map[int]bool
+	oblBlock    int
 }
 
 type retPoint struct {
@@ -112,7 +117,7 @@ func newFnTx(ld *Loaded, cs *Contracts, fn *ssa.Function, c *FnContract) *FnTx {
 		reach: map[*ssa.BasicBlock]string{}, out: map[*ssa.BasicBlock]*State{},
 		localAlloc: map[*ssa.Alloc]bool{}, privFV: map[*ssa.FreeVar]bool{}, loops: map[*ssa.BasicBlock]*loopInfo{},
 		lets: map[string]Term{}, globals: map[*ssa.Global]int{}, ncall: map[string]int{}, nsafe: map[string]int{},
-		notes: map[string]int{}, fnValSorts: map[string][2][]types.Type{}}
+		notes: map[string]int{}, fnValSorts: map[string][2][]types.Type{}, oblBlock: -1}
 	return tx
 }
 
@@ -123,6 +128,39 @@ func (tx *FnTx) assume(s string) {
 		return
 	}
 	tx.assumes = append(tx.assumes, s)
+	tag := -1
+	if tx.curBlock != nil {
+		tag = tx.curBlock.Index
+	}
+	tx.assumeTags = append(tx.assumeTags, tag)
+}
+
+// relevantBlocks: the blocks from which block b is reachable along forward (non-back) edges, plus b itself.
+func (tx *FnTx) relevantBlocks(b int) map[int]bool {
+	if tx.fn == nil || b < 0 || b >= len(tx.fn.Blocks) {
+		return nil
+	}
+	if tx.relCache == nil {
+		tx.relCache = map[int]map[int]bool{}
+	}
+	if r, ok := tx.relCache[b]; ok {
+		return r
+	}
+	r := map[int]bool{b: true}
+	stack := []*ssa.BasicBlock{tx.fn.Blocks[b]}
+	for len(stack) > 0 {
+		x := stack[len(stack)-1]
+		stack = stack[:len(stack)-1]
+		for _, p := range x.Preds {
+			if isBackEdge(p, x) || r[p.Index] {
+				continue
+			}
+			r[p.Index] = true
+			stack = append(stack, p)
+		}
+	}
+	tx.relCache[b] = r
+	return r
 }
 
 func (tx *FnTx) assumeReach(s string) {
@@ -130,7 +168,13 @@ func (tx *FnTx) assumeReach(s string) {
 }
 
 func (tx *FnTx) oblige(kind, label, goal, reach, src string) *Obligation {
-	o := &Obligation{Name: tx.key + "#" + kind + ":" + label, Fn: tx.key, Kind: kind, Label: label, Goal: goal, Reach: reach, NAssume: len(tx.assumes), Src: src, tx: tx}
+	o := &Obligation{Name: tx.key + "#" + kind + ":" + label, Fn: tx.key, Kind: kind, Label: label, Goal: goal, Reach: reach, NAssume: len(tx.assumes), Src: src, tx: tx, Block: -1}
+	if tx.curBlock != nil {
+		o.Block = tx.curBlock.Index
+	}
+	if tx.oblBlock >= 0 {
+		o.Block = tx.oblBlock
+	}
 	if kind == "cover" {
 		o.Cover = true
 	}
@@ -889,6 +933,7 @@ func (tx *FnTx) fnValSlotSort(name string, isArg bool, k string) (string, types.
 }
 
 func (tx *FnTx) execBlock(b *ssa.BasicBlock) {
+	tx.curBlock = b
 	// incoming edges
 	var states []*State
 	var conds []string
@@ -1461,6 +1506,8 @@ func (tx *FnTx) finishReturns() {
 		return
 	}
 	for _, rp := range tx.retStates {
+		tx.oblBlock = rp.block
+		tx.curBlock = tx.fn.Blocks[rp.block]
 		env := tx.baseEnv(rp.st, tx.entry)
 		tx.bindResults(env, rp.results)
 		// postconditions may mention local variables: their value at this return point; a local that is not
